@@ -58,6 +58,9 @@ def mentions_outside_len(t, idx):
 
 
 def run(prog, rep, tier):
+    # regress / mse read self.mean and self.covariance: the constructor must have stored the given moments themselves
+    from .C05 import ctor_rules
+    ctor_rules(rep, prog)
     inl = lambda g: g.qname in (U + "matrix_block",)
     f = need(prog, ND + "regress")
     S = Sym(prog, inline=inl)
